@@ -1003,6 +1003,16 @@ func (vc *VC) declarePred(pd *PredDecl) string {
 		env.names[p.Name] = TV{term: pn, typ: t}
 	}
 	rt := vc.eng.resolveType(pd.Result, ppkg)
+	if vc.opaque[pd.Name] {
+		// opaque in this unit: only the lemmas in use say anything about it
+		var sorts []string
+		for _, p := range pd.Params {
+			sorts = append(sorts, vc.sortOf(vc.eng.resolveType(p.T, ppkg)))
+		}
+		vc.decl("f:"+name, fmt.Sprintf("(declare-fun %s (%s) %s)", name, strings.Join(sorts, " "), vc.sortOf(rt)))
+		vc.note("spec function %s is opaque in this unit (its definition is hidden; the lemmas in use are proved against the definition)", pd.Name)
+		return name
+	}
 	// reserve position: recursive preds must be declared before their body is evaluated
 	idx := len(vc.decls)
 	vc.decls = append(vc.decls, "")
